@@ -5,6 +5,8 @@ mod coq;
 mod prng;
 mod c07;
 mod c01;
+mod c02;
+mod cli;
 mod ledger;
 
 pub struct Opts {
@@ -65,6 +67,8 @@ fn main() {
     match prop.as_str() {
         "c07" => c07::run(&o),
         "c01" => c01::run(&o),
+        "c02" => c02::run(&o, "C02"),
+        "c03" => c02::run(&o, "C03"),
         _ => {
             eprintln!("unknown property {}", prop);
             std::process::exit(2);
